@@ -483,7 +483,7 @@ class ClimateSpec(Spec):
                 "grid": {"n": n, "s": r.randrange(10 ** 9)},
                 "S": {"k": "sim", "n": n, "s": r.randrange(10 ** 9)},
                 "thr": r.choice((0.3, 0.5, 0.7)), "rho": None,
-                "non_local": False, "nwt": "surface"}
+                "non_local": r.random() < 0.25, "nwt": "surface"}
 
     def ctor_kw(self, m):
         kw = {"non_local": m["non_local"], "node_weight_type": m["nwt"],
@@ -740,6 +740,10 @@ class ISRNSpec(Spec):
              "x": {"k": "series1", "T": Tx, "s": r.randrange(10 ** 9)},
              "y": {"k": "series1", "T": Ty, "s": r.randrange(10 ** 9)}}
         self._crit(r, m)
+        # sometimes already in the kernels' dtype, sometimes normalised
+        dt = r.choice((None, None, "float32"))
+        m["x"]["dt"] = m["y"]["dt"] = dt
+        m["normalize"] = r.random() < 0.3
         return m
 
     @staticmethod
@@ -753,6 +757,7 @@ class ISRNSpec(Spec):
 
     def construct(self, m):
         return self.cls()(mat(m["x"]), mat(m["y"]), silence_level=3,
+                          normalize=bool(m.get("normalize")),
                           **{m["crit"]: tuple(m["cv"])})
 
     def mutators(self):
